@@ -497,10 +497,16 @@ impl Formatter {
                     DecoratorArg::Positional(expr) => self.format_expr(&expr.node),
                     DecoratorArg::Named(name, value) => {
                         self.writer.write(name);
-                        self.writer.write("=");
                         match value {
-                            DecoratorArgValue::Type(ty) => self.format_type(&ty.node),
-                            DecoratorArgValue::Expr(expr) => self.format_expr(&expr.node),
+                            // `name: Type` and `name=expr` are different argument kinds.
+                            DecoratorArgValue::Type(ty) => {
+                                self.writer.write(": ");
+                                self.format_type(&ty.node)
+                            }
+                            DecoratorArgValue::Expr(expr) => {
+                                self.writer.write("=");
+                                self.format_expr(&expr.node)
+                            }
                         }
                     }
                 }
@@ -877,7 +883,13 @@ impl Formatter {
             }
             Expr::Closure(params, body) => {
                 self.writer.write("(");
-                self.format_params(params);
+                // Closure parameters are bare names (their type is the inferred placeholder `_`).
+                for (i, param) in params.iter().enumerate() {
+                    if i > 0 {
+                        self.writer.write(", ");
+                    }
+                    self.writer.write(&param.node.name);
+                }
                 self.writer.write(") => ");
                 self.format_expr(&body.node);
             }
